@@ -2382,6 +2382,9 @@ def convert_mean_to_depthwise_conv(op, arch, nng):
             intermediate_tensor = op.ofm.clone(suffix=f"_conv_sum_{i}", set_unique=True)
             intermediate_tensor.dtype = DataType.int32
             intermediate_tensor.shape = intermediate_shape
+            # The sum is read back with zero point 0 (int32 IFM), so it must be written with zero point 0 as well
+            intermediate_tensor.quantization = op.ofm.quantization.clone()
+            intermediate_tensor.quantization.zero_point = 0
             intermediate_op.set_output_tensor(intermediate_tensor)
 
             # as we have several convs, scaling/rounding must be done after the sum has been calculated
@@ -2442,6 +2445,8 @@ def convert_mean_to_depthwise_conv(op, arch, nng):
                 intermediate_tensor = op.ofm.clone(suffix=f"_add_sum_{idx}", set_unique=True)
                 intermediate_tensor.dtype = DataType.int32
                 intermediate_tensor.shape = intermediate_shape
+                intermediate_tensor.quantization = op.ofm.quantization.clone()
+                intermediate_tensor.quantization.zero_point = 0
 
                 one_scale_quant = QuantizationParameters(scale_f32=1.0, zero_point=0)
 
